@@ -1,7 +1,7 @@
 #!/bin/sh
 # Offline setup: nothing to build ahead of time - every check rebuilds from /repo's
 # working tree. Verify the tools are present.
-for t in cbmc goto-cc goto-instrument cvc5 z3-new clang++ g++ gcc python3; do
+for t in cbmc goto-cc goto-instrument cvc5 z3-new z3 kissat clang++ g++ gcc python3; do
   command -v $t >/dev/null 2>&1 || { echo "missing tool: $t"; exit 1; }
 done
 mkdir -p /verif/build /verif/replay /verif/evidence
